@@ -27,7 +27,10 @@ stages:
   - duration: 150ms
     mode: users
     concurrency: 3
-  - duration: 2s
+  - duration: 400ms
     rate: 20/10ms
+  - duration: 1500ms
+    mode: users
+    concurrency: 2
 `
 }
